@@ -105,7 +105,9 @@ def step (st : St) (pre post : List String) : St × Verdict :=
             match batches.findSome? checkNodeOps with
             | some e => ({ st with shadow := shadow' }, .diff s!"node encoding: {e}")
             | none =>
-              let order := order0 ++ st.names.filter (fun n => !order0.contains n)
+              -- the iteration order of `commitStores` is the order of the persisted StoreInfos
+              let order1 := ((aget cid.version shadow'.cinfos).map fun ci => ci.infos.map (·.name)).getD order0
+              let order := order1 ++ st.names.filter (fun n => !order1.contains n)
               let blockOpt : Option DBlock := st.names.mapM fun n =>
                 match aget n m.stores with
                 | none => none
@@ -151,7 +153,7 @@ def step (st : St) (pre post : List String) : St × Verdict :=
           | none =>
             match (st.orig.find? (·.1 = v)).bind (fun e => obsStore e.2 (nameOf store)) with
             | some (_, ohash, odump) =>
-              if odump ≠ live ∨ ohash ≠ ihash then (st', pf st "reexec-state-differs" s!"store {store} v{v}: uninterrupted {renderHash ohash} {odump}, now {ihash} {live}")
+              if odump ≠ live ∨ ohash ≠ ihash then (st', pf st "reexec-state-differs" s!"store {store} v{v}: uninterrupted {renderHash ohash} {odump}, now {renderHash ihash} {live}")
               else (st', .ok)
             | none => (st', .ok)
       | _, _, _ => (st, .bad "state fields")
